@@ -19,7 +19,7 @@
 (* action's own postcondition; the global clauses (well-formedness C03,    *)
 (* no-poison C12, frame C17, options C14) are evaluated on every event.    *)
 (***************************************************************************)
-EXTENDS PolyArray, Options, Monomial, TLC
+EXTENDS PolyArray, Options, Monomial, DType, TLC
 
 HasDen(v) == v.kind \in {"poly", "array"}
 DenDefined(v) == WellFormedClause(v) \notin {"wf_names", "wf_width", "wf_duplicate_rows", "wf_coef_count", "wf_coef_shape_dtype"}
@@ -355,6 +355,127 @@ JDeriv(ev, reg) ==
                                                  j == ((k - 1) \div n) % D
                                              IN EDeriv(EDeriv(a.el[1 + ((k - 1) % n)], names[j + 1]), names[i + 1])]])
 
+\* ------------------------------------- C03 construction from attributes, rebuilding
+Flag(f, dflt) == IF f = "none" THEN dflt ELSE f = "true"
+\* ev.rows, ev.coefs (per row, flattened), ev.shape, ev.names, ev.rc / ev.rn ("none" | "true" | "false")
+JFromAttributes(ev, opts) ==
+  LET rows == ev.rows  coefs == ev.coefs  names == ev.names
+      nr == Len(rows)
+      width == IF nr = 0 THEN 0 ELSE Len(rows[1])
+      rc == Flag(ev.rc, opts.retain_coefficients)
+      rn == Flag(ev.rn, opts.retain_names)
+      lenBad == Len(coefs) # nr \/ Len(names) # width
+      namesBad == ~Distinct(names)
+      keep == IF rc THEN [r \in 1..nr |-> r]
+              ELSE SelectSeq([r \in 1..nr |-> r], LAMBDA r : ~RowIsZero(coefs, r) \/ RowIsConst(rows, r))
+      keptRows == [i \in 1..Len(keep) |-> rows[keep[i]]]
+      dupKept == ~Distinct(keptRows)
+      dupAny == ~Distinct(rows)
+  IN IF lenBad \/ namesBad \/ dupKept THEN ExpectRaise(ev, "PolynomialConstructionError")
+     ELSE IF dupAny /\ ev.out = "raise" THEN ExpectRaise(ev, "PolynomialConstructionError")   \* duplicate among dropped zero terms: either outcome
+     ELSE IF ev.out # "ret" THEN "raised"
+     ELSE LET r == ev.res[1]
+              erows == IF keep = <<>> THEN <<[j \in 1..width |-> 0]>> ELSE keptRows
+              ecoefs == IF keep = <<>> THEN <<[k \in 1..Size(ev.shape) |-> NZero]>> ELSE [i \in 1..Len(keep) |-> coefs[keep[i]]]
+              cols == IF rn THEN [j \in 1..width |-> j]
+                      ELSE LET used == SelectSeq([j \in 1..width |-> j], LAMBDA j : \E i \in 1..Len(erows) : erows[i][j] > 0)
+                           IN IF used = <<>> THEN <<1>> ELSE used
+              enames == [i \in 1..Len(cols) |-> names[cols[i]]]
+              prows == [i \in 1..Len(erows) |-> [c \in 1..Len(cols) |-> erows[i][cols[c]]]]
+          IN IF r.kind # "poly" THEN "type"
+             ELSE IF r.shape # ev.shape THEN "shape"
+             ELSE IF r.names # enames THEN "names"
+             ELSE IF RangeOf(r.rows) # RangeOf(prows) \/ Len(r.rows) # Len(prows) THEN "rows"
+             ELSE IF \E i \in 1..Len(prows) : r.coefs[CHOOSE x \in 1..Len(r.rows) : r.rows[x] = prows[i]] # ecoefs[i] THEN "value"
+             ELSE "ok"
+\* rebuilding a polynomial from its own attributes / raw view / dictionary
+JRebuild(ev, reg, opts) ==
+  LET v == reg[ev.args[1]].v  a == reg[ev.args[1]].d
+      own == ExpectDen(ev, IF ev.via = "indeterminants_call" THEN "any" ELSE "poly", a)
+  IN IF v.kind # "poly" THEN "machinery_operand"
+     ELSE IF own # "ok" THEN own
+     ELSE IF ev.res[1].kind # "poly" THEN "ok"
+     ELSE IF ev.res[1].dtype # v.dtype THEN "dtype"
+     ELSE IF opts.retain_names /\ ev.res[1].names # v.names THEN "names"
+     ELSE "ok"
+\* numpoly.variable(n) / symbols: the array of the n indeterminates q0 .. q(n-1) (0-d for n = 1)
+JVariable(ev) ==
+  LET want == [shape |-> IF ev.n = 1 THEN <<>> ELSE <<ev.n>>,
+               el |-> [k \in 1..ev.n |-> ETerm(NOne, MVar(ev.ids[k]))]]
+      own == ExpectDen(ev, "poly", want)
+  IN IF own # "ok" THEN own ELSE IF ev.res[1].names # ev.ids THEN "names" ELSE "ok"
+
+\* ---------------------------------------------------------------- C04 alignment
+OpNames(r) == IF r.v.kind = "poly" THEN RangeOf(r.v.names) ELSE {0}     \* a number becomes a polynomial in q0
+JAlign(ev, reg) ==
+  LET n == Len(ev.args)
+      ds == [i \in 1..n |-> reg[ev.args[i]].d]
+      shapes == [i \in 1..n |-> ds[i].shape]
+      doShape == ev.fn \in {"align_shape", "align_polynomials"}
+      doNames == ev.fn \in {"align_indeterminants", "align_exponents", "align_polynomials"}
+      doRows == ev.fn \in {"align_exponents", "align_polynomials"}
+      common == BShape(shapes)
+      allNames == SortedNames(UNION {OpNames(reg[ev.args[i]]) : i \in 1..n})
+  IN IF doShape /\ ~BroadcastOK(shapes) THEN "ok"
+     ELSE IF ev.out # "ret" THEN "raised"
+     ELSE IF Len(ev.res) # n THEN "arity"
+     ELSE First([i \in 1..n |->
+            LET r == ev.res[i]
+                want == IF doShape THEN DBroadcast(ds[i], common) ELSE ds[i]
+                own == ExpectDenAt(ev, i, "poly", want)
+            IN IF own # "ok" THEN own
+               ELSE IF doNames /\ r.names # allNames THEN "names"
+               ELSE IF doRows /\ (r.rows # ev.res[1].rows \/ r.keys # ev.res[1].keys) THEN "rows"
+               ELSE "ok"])
+\* aligning aligned arguments changes nothing (representation level)
+JRealign(ev, reg) ==
+  LET n == Len(ev.args)
+  IN IF ev.out # "ret" THEN "raised"
+     ELSE IF Len(ev.res) # n THEN "arity"
+     ELSE First([i \in 1..n |->
+            LET r == ev.res[i]  o == reg[ev.args[i]].v
+            IN IF r.kind # "poly" \/ o.kind # "poly" THEN "type"
+               ELSE IF r.shape # o.shape THEN "shape"
+               ELSE IF r.names # o.names THEN "names"
+               ELSE IF r.rows # o.rows \/ r.keys # o.keys THEN "rows"
+               ELSE IF r.coefs # o.coefs THEN "value" ELSE "ok"])
+
+\* ------------------------------------------------------- C17 explicit output targets
+\* copyto(dst, src, where=mask): ev.args = <<dst, src>>, ev.targets = <<dst>>, ev.after = <<dst afterwards>>,
+\* ev.mask: <<>> (no mask) or the boolean mask flattened over dst's shape
+JCopyTo(ev, reg) ==
+  LET dst == reg[ev.args[1]].d  src == reg[ev.args[2]].d
+  IN IF ~BroadcastsTo(src.shape, dst.shape) THEN "ok"
+     ELSE IF ev.out # "ret" THEN "raised"
+     ELSE LET b == DBroadcast(src, dst.shape)
+              want == [k \in 1..Len(dst.el) |-> IF ev.mask = <<>> \/ ev.mask[k] THEN b.el[k] ELSE dst.el[k]]
+              got == ev.after[1]
+          IN IF ~HasDen(got) \/ ~DenDefined(got) THEN "type"
+             ELSE IF got.shape # dst.shape THEN "shape"
+             ELSE IF Den(got).el # want THEN "value" ELSE "ok"
+
+\* ------------------------------------------------------------------ C12 dtypes
+DCast(d, dt) == Lift1(LAMBDA f : EClean([m \in DOMAIN f |-> Cast(f[m], dt)]), d)
+JDType(ev, reg) ==
+  CASE ev.fn = "dtype_pair" ->          \* binds DType.tla to numpy.result_type
+         IF Promote(ev.a, ev.b) = ev.np THEN "ok" ELSE "machinery_dtype_model"
+    [] ev.fn = "cast" ->                \* binds Cast to ndarray.astype
+         IF [k \in 1..Len(ev.vals) |-> Cast(ev.vals[k], ev.to)] = ev.np_vals THEN "ok" ELSE "machinery_cast_model"
+    [] ev.fn = "construct" ->           \* polynomial / aspolynomial / astype / from data, with or without dtype=
+         LET src == reg[ev.args[1]]
+             target == IF ev.dtype = "" THEN src.v.dtype ELSE ev.dtype
+             own == ExpectDen(ev, "poly", DCast(src.d, target))
+         IN IF own # "ok" THEN own ELSE IF ev.res[1].dtype # target THEN "dtype" ELSE "ok"
+    [] ev.fn = "variable" ->
+         LET own == JVariable(ev)
+         IN IF own # "ok" THEN own ELSE IF ev.res[1].dtype # ev.dtype THEN "dtype" ELSE "ok"
+    [] ev.fn = "arith" ->
+         LET a == reg[ev.args[1]]  b == reg[ev.args[2]]
+             target == Promote(a.v.dtype, b.v.dtype)
+         IN IF ~BroadcastOK2(a.d.shape, b.d.shape) THEN "ok"
+            ELSE LET own == ExpectDen(ev, "poly", DCast(DArith(ev.op, a.d, b.d), target))
+                 IN IF own # "ok" THEN own ELSE IF ev.res[1].dtype # target THEN "dtype" ELSE "ok"
+
 \* -------------------------------------------------------------- C14 options
 OptAct(ev) == ev.act \in {"set_options", "enter", "exit", "exit_exc", "get_mutate", "get_defaults"}
 NextOpts(ev, opts, ctx) ==
@@ -376,15 +497,23 @@ JOption(ev, opts, ctx) ==
     [] ev.act = "get_defaults" -> IF ev.out = "ret" /\ ev.seen = DefaultOptions THEN "ok" ELSE "defaults"
 
 \* ------------------------------------------------------------------ dispatch
-NeedsDen(ev) == ev.act \in {"arith", "unary", "move", "reduce", "call", "deriv", "compare", "extreme", "lead", "tonumpy", "todict", "decompose", "set_dimensions"}
+NeedsDen(ev) == ev.act \in {"copyto", "rebuild", "align", "arith", "unary", "move", "reduce", "call", "deriv", "compare", "extreme", "lead", "tonumpy", "todict", "decompose", "set_dimensions"}
 Own(ev, reg, opts, ctx) ==
   CASE ev.act = "new" -> "ok"
     [] \E i \in 1..Len(ev.args) : ev.args[i] \notin 1..Len(reg) -> "machinery_operand"
-    [] NeedsDen(ev) /\ \E i \in 1..Len(ev.args) : reg[ev.args[i]].d = <<>> -> "machinery_operand"
+    [] (NeedsDen(ev) \/ (ev.act = "dtype" /\ ev.fn \in {"construct", "arith"})) /\ \E i \in 1..Len(ev.args) : reg[ev.args[i]].d = <<>> -> "machinery_operand"
     [] ev.act = "arith" -> JArith(ev, reg)
     [] ev.act = "unary" -> JUnary(ev, reg)
     [] ev.act = "move" -> JMove(ev, reg, opts)
     [] ev.act = "reduce" -> JReduce(ev, reg)
+    [] ev.act = "dtype" -> JDType(ev, reg)
+    [] ev.act = "any" -> "ok"          \* no claim about the result: only the global clauses are evaluated
+    [] ev.act = "copyto" -> JCopyTo(ev, reg)
+    [] ev.act = "from_attributes" -> JFromAttributes(ev, opts)
+    [] ev.act = "rebuild" -> JRebuild(ev, reg, opts)
+    [] ev.act = "variable" -> JVariable(ev)
+    [] ev.act = "align" -> JAlign(ev, reg)
+    [] ev.act = "realign" -> JRealign(ev, reg)
     [] ev.act = "call" -> JCall(ev, reg)
     [] ev.act = "deriv" -> JDeriv(ev, reg)
     [] ev.act = "compare" -> JCompare(ev, reg, opts)
@@ -423,7 +552,8 @@ Judge(ev, reg, opts, ctx) ==
 
 NextReg(ev, reg) ==
   LET upd == [i \in 1..Len(reg) |-> IF i \in RangeOf(ev.targets)
-                                     THEN [reg[i] EXCEPT !.dg = ev.digests[i]] ELSE reg[i]]
+                                     THEN MkReg(ev.after[CHOOSE x \in 1..Len(ev.targets) : ev.targets[x] = i])
+                                     ELSE reg[i]]
   IN IF ev.out = "ret" /\ ev.kept
      THEN upd \o [i \in 1..Len(ev.res) |-> MkReg(ev.res[i])]
      ELSE upd
